@@ -36,6 +36,7 @@ type specEnv struct {
 	rdepth   int
 	resTypes []types.Type
 	preAlloc Term
+	oldArrays map[string]Term // heap/ghost versions of the pre-state (for old())
 	// polarity bookkeeping for the one-directional unfolding of recursive predicates
 	pol        int  // +1 positive, -1 negative, 0 unknown/both (after first use it is never 0 at top level)
 	assertMode bool // the formula being evaluated is a proof goal (not an assumption)
@@ -72,6 +73,7 @@ func (c *Ctx) envForFrame(st *State, fr *Frame) *specEnv {
 			env.vars[k] = v
 		}
 		env.oldCache = run.oldCache
+		env.oldArrays = run.entryArrays
 	}
 	// source-level variables seen so far on this path
 	for name, dv := range fr.vars {
@@ -723,6 +725,35 @@ func (c *Ctx) evalCall(env *specEnv, n *SNode) (specVal, error) {
 	}
 	switch n.Text {
 	case "old":
+		if env.oldArrays != nil {
+			// evaluate in the pre-state: the heap and ghost families have their versions of
+			// that moment (a family first touched later still had its first version then);
+			// identifiers (parameters, results, bound variables) keep their meaning
+			cur := st.arrays
+			tmp := make(map[string]Term, len(cur))
+			for fam, t := range cur {
+				if o, ok := env.oldArrays[fam]; ok {
+					tmp[fam] = o
+				} else if e, ok := st.entry[fam]; ok {
+					tmp[fam] = e
+				} else {
+					tmp[fam] = t
+				}
+			}
+			for fam, o := range env.oldArrays {
+				tmp[fam] = o
+			}
+			st.arrays = tmp
+			v, err := c.evalSpec(env, n.Args[0])
+			// families materialised during this evaluation exist in the current state too
+			for fam, t := range tmp {
+				if _, ok := cur[fam]; !ok {
+					cur[fam] = t
+				}
+			}
+			st.arrays = cur
+			return v, err
+		}
 		if env.oldCache != nil {
 			if v, ok := env.oldCache[n]; ok {
 				return v, nil
@@ -1187,7 +1218,7 @@ func (c *Ctx) evalPure(env *specEnv, pd *PureDef, n *SNode) (specVal, error) {
 		return specVal{atom, rt}, nil
 	}
 	if pd.Body != nil {
-		sub := &specEnv{c: c, st: env.st, vars: map[string]specVal{}, pkg: pkg, fn: env.fn, post: env.post, results: env.results, old: env.old, oldCache: env.oldCache, frame: env.frame, loopHead: env.loopHead, rdepth: env.rdepth, preAlloc: env.preAlloc, pol: env.pol, polSet: true, assertMode: env.assertMode}
+		sub := &specEnv{c: c, st: env.st, vars: map[string]specVal{}, pkg: pkg, fn: env.fn, post: env.post, results: env.results, old: env.old, oldCache: env.oldCache, frame: env.frame, loopHead: env.loopHead, rdepth: env.rdepth, preAlloc: env.preAlloc, oldArrays: env.oldArrays, pol: env.pol, polSet: true, assertMode: env.assertMode}
 		for i, p := range pd.Params {
 			sub.vars[p[0]] = args[i]
 		}
